@@ -15,3 +15,176 @@ package file
 //@   callee OpenFile(name, flag, perm) (f, err)
 //@     requires flag == 1090 || flag == 1089
 //@     pure
+
+// C19 (file framing): the ForEach callback encodes the event it is given exactly once,
+// onto the end of the batch buffer, and closes it with one newline.  Framing invariant
+// of the buffer: it is empty or ends with a newline (a sequence of complete lines).
+
+//@ func (*Plugin).out$1
+//@   ghost nenc int = 0
+//@   ghost elen int = 0
+//@   requires len(outBuf) == 0 || outBuf[len(outBuf) - 1] == '\n'
+//@   ensures nenc == 1
+//@   ensures elen >= old(len(outBuf)) && len(outBuf) == elen + 1 && outBuf[elen] == '\n'
+//@   callee Encode(buf) (r, n)
+//@     requires recv == event && buf == outBuf && nenc == 0
+//@     pure
+//@     ensures len(r) >= len(buf)
+//@     set nenc := nenc + 1
+//@     set elen := len(r)
+
+// out: the payload starts empty for every batch (whatever the per-worker buffer held
+// from the batch before), is filled by ForEach only, and is handed to write whole,
+// exactly once, after the last event was encoded; out returns only after write did
+// (the batcher commits the batch after out returns: C08).
+
+//@ func (*Plugin).out
+//@   requires p.config.BatchSize_ >= 0 && p.config.BatchSize_ * p.avgEventSize >= 0
+//@   requires workerData != nil && (isnil(*workerData) || typeis(*workerData, "*github.com/ozontech/file.d/plugin/output/file.data"))
+//@   ghost nfe int = 0
+//@   ghost nwr int = 0
+//@   ensures nfe == 1 && nwr == 1
+//@   callee ForEach(cb)
+//@     requires recv == batch && nfe == 0 && nwr == 0 && len(outBuf) == 0
+//@     ensures len(outBuf) == 0 || outBuf[len(outBuf) - 1] == '\n'
+//@     set nfe := nfe + 1
+//@   callee write(d)
+//@     requires nfe == 1 && nwr == 0 && d == outBuf
+//@     requires len(d) == 0 || d[len(d) - 1] == '\n'
+//@     set nwr := nwr + 1
+
+// write: the whole buffer goes to the current file in one Write, under the read lock
+// that keeps sealUp from swapping the file meanwhile; write returns normally only if
+// that Write reported no error (os.File.Write: a nil error means all of b was written).
+
+//@ func (*Plugin).write
+//@   option allow-exit yes
+//@   ghost nw int = 0
+//@   ghost werr bool = false
+//@   ghost rl bool = false
+//@   ghost wn int = 0
+//@   ensures nw == 1 && !werr && wn == len(data) && !rl
+//@   callee RLock()
+//@     requires recv == p.mu && !rl
+//@     set rl := true
+//@   callee RUnlock()
+//@     requires recv == p.mu && rl && nw == 1
+//@     set rl := false
+//@   callee Write(b) (n, err)
+//@     requires recv == p.file && b == data && nw == 0 && rl
+//@     pure
+//@     ensures err == nil ==> n == len(b)
+//@     set nw := nw + 1
+//@     set werr := err != nil
+//@     set wn := n
+//@   callee Name() (s)
+//@     pure
+//@   callee Error() (s)
+//@     pure
+
+// sealUp (rotation): events that writers append concurrently must land in a file that
+// stays - so the current file is renamed first (under its time-stamped name), replaced by
+// a new one under the write lock (no Write is in flight while p.file changes), and only the
+// replaced file is closed, after the swap.  An empty file is left alone.
+
+//@ func (*Plugin).sealUp
+//@   option allow-exit yes
+//@   ghost empty bool = false
+//@   ghost wl bool = false
+//@   ghost f0 int = 0
+//@   ghost nren int = 0
+//@   ghost nnew int = 0
+//@   ghost ncls int = 0
+//@   ensures !wl && nnew == nren && ncls == nren
+//@   ensures nren == ite(empty, 0, 1)
+//@   callee Stat() (info, err)
+//@     requires recv == p.file && nren == 0
+//@     pure
+//@   callee Size() (n)
+//@     pure
+//@     set empty := n == 0
+//@   callee rename(name)
+//@     requires !empty && nren == 0 && nnew == 0 && !wl
+//@     set nren := nren + 1
+//@   callee Lock()
+//@     requires recv == p.mu && !wl
+//@     set wl := true
+//@   callee createNew()
+//@     requires wl && nren == 1 && nnew == 0
+//@     set nnew := nnew + 1
+//@     set f0 := ref(p.file)
+//@   callee Unlock()
+//@     requires recv == p.mu && wl && nnew == 1
+//@     set wl := false
+//@   callee Close() (err)
+//@     requires ref(recv) == f0 && nnew == 1 && ncls == 0 && !wl
+//@     pure
+//@     set ncls := ncls + 1
+//@   callee Name() (s)
+//@     pure
+//@   callee Error() (s)
+//@     pure
+
+// rename: the sealed name handed in is the target of the one os.Rename; the sequence
+// number of sealed files advances by one per sealed file (two sealed files never get the
+// same name); nothing else of the plugin is touched (p.file in particular).
+
+//@ func (*Plugin).rename
+//@   option allow-exit yes
+//@   modifies p.idx
+//@   ghost nrn int = 0
+//@   ensures p.idx == old(p.idx) + 1 && nrn == 1
+//@   callee Rename(o, n) (err)
+//@     requires n == newFileName && nrn == 0
+//@     pure
+//@     set nrn := nrn + 1
+//@   callee Error() (s)
+//@     pure
+
+// getStartIdx: the first sequence number used for sealed files is above the number of
+// every sealed file found (gmax: the largest number parsed so far) and never negative,
+// so that sealing does not rename a file onto an existing sealed file.
+
+//@ func (*Plugin).getStartIdx
+//@   option allow-exit yes
+//@   ghost gmax int = -1
+//@   ensures result > gmax && result >= 0
+//@   loop 1 invariant idx >= gmax && idx >= -1
+//@   callee Glob(pat) (m, e)
+//@     pure
+//@   callee Base(path) (b)
+//@     pure
+//@   callee Atoi(s) (n, e)
+//@     pure
+//@     set gmax := ite(e == nil && n > gmax, n, gmax)
+//@   callee Error() (s)
+//@     pure
+
+// setNextSealUpTime: the current file is sealed one retention interval after the time in
+// its name - the decimal number in front of "_<name><ext>" - also for a file taken over
+// from a previous run.
+
+//@ func (*Plugin).setNextSealUpTime
+//@   option allow-exit yes
+//@   requires len(p.tsFileName) >= 1 + len(p.fileName) + len(p.fileExtension)
+//@   ghost gt int = 0
+//@   ghost nadd int = 0
+//@   ghost gu int = 0
+//@   ghost ga int = 0
+//@   ensures nadd == 1 && p.nextSealUpTime.ext == ga
+//@   callee ParseInt(s, base, bits) (n, e)
+//@     requires len(s) == len(p.tsFileName) - 1 - len(p.fileName) - len(p.fileExtension) && base == 10 && bits == 64
+//@     requires forall k :: 0 <= k && k < len(s) ==> s[k] == p.tsFileName[k]
+//@     pure
+//@     set gt := n
+//@   callee Unix(sec, nsec) (t)
+//@     requires sec == gt && nsec == 0
+//@     pure
+//@     set gu := t.ext
+//@   callee Add(d) (t)
+//@     requires d == p.config.RetentionInterval_ && nadd == 0 && recv.ext == gu
+//@     pure
+//@     set nadd := nadd + 1
+//@     set ga := t.ext
+//@   callee Error() (s)
+//@     pure
